@@ -48,7 +48,9 @@ def run_check(tier, seed, replay=None):
     from . import lcommon
     lhist = os.path.join(BUILD, "c04_loader.hist")
     lmc = tlc_mc("MC_Loader.tla", "MC_Loader_c04.cfg" if quick else "MC_Loader_thorough.cfg", "c04_lmc", edges_out=lhist, timeout=2400)
-    for sname, suite, extra in [("lmodel", "classes", ["--histories", lhist]), ("lsweep", "sweep", []), ("lrandom", "random", ["--n", "300" if quick else "5000"])]:
+    for sname, suite, extra in [("lmodel", "classes", ["--histories", lhist]), ("lsweep", "sweep", []), ("lrandom", "random", ["--n", "300" if quick else "5000"]),
+                                # the other entry points of the loader (load_bytes with trailing bytes, Loader::default(), a Loader used again after an error)
+                                ("lraw", "raw", ["--n", "200" if quick else "3000"])]:
         trace, info = lcommon.run_suite("c04_" + sname, suite, seed + 5, extra)
         n, nbad, counted, dt = lcommon.validate(rep, trace, "c04_" + sname, lcommon.CODE_PANIC)
         log("loader suite %s: %d events, %d rejected, %d panics" % (sname, n, nbad, counted))
